@@ -157,9 +157,10 @@ class Engine:
             meta = dict(meta or {}, classes=cls)
         g = z3.simplify(goal)
         if not z3.is_true(g):
-            self.obligations.append(
-                Obligation("%s#%s" % (self.qualname, name), kind, line, self.st.all_facts(), goal, self.path_counter, meta)
-            )
+            ob = Obligation("%s#%s" % (self.qualname, name), kind, line, self.st.all_facts(), goal, self.path_counter, meta)
+            if z3.is_false(g):
+                ob.light_facts = self.st.light()
+            self.obligations.append(ob)
         else:
             self.obligations.append(
                 Obligation("%s#%s" % (self.qualname, name), kind, line, [], z3.BoolVal(True), self.path_counter, dict(meta or {}, trivial=True))
